@@ -64,6 +64,9 @@ fn oracle_state<A: Alphabet, C: StrictlyPositive + ArrayLength>(st: &StripedSequ
     if st.len() != l {
         return Err(format!("len {} != {}", st.len(), l));
     }
+    if st.is_empty() != (l == 0) {
+        return Err(format!("is_empty() = {} for a sequence of length {}", st.is_empty(), l));
+    }
     if st.wrap() != w {
         return Err(format!("wrap {} != {}", st.wrap(), w));
     }
